@@ -230,7 +230,7 @@ def newHttpBlock (o : Opts) (Ω : Oracles) (content : Bytes) (bd pd : Digest) : 
   condSite (!found) o.syn .httpEoh
   let hb' := if !found && o.fixSyntaxErrors then hb ++ crlf else hb
   let h ← M.hdr
-  M.setHdr (if !found && o.fixSyntaxErrors then setInt h (bs "Content-Length") (wrap64 (contentLengthOf h + 2)) else h)
+  M.setHdr (if !found && o.fixSyntaxErrors && h.has (bs "Content-Length") then setInt h (bs "Content-Length") (wrap64 (contentLengthOf h + 2)) else h)
   let isResp := hasPrefix (bs "HTTP") hb'
   let parseInput := if !found && !o.fixSyntaxErrors then hb' ++ crlf else hb'
   condSite (!Ω.http isResp parseInput) o.blk .httpParse
@@ -385,6 +385,8 @@ def unmarshalTail (o : Opts) (Ω : Oracles) (vtxt : Bytes) (vid : Nat) (fs : Fie
   let cfault := s'.fault && (decide (len < 0) || decide (s'.rest.length < len.toNat))   -- the content reader hit the end of the stream
   let b ← parseBlock o Ω rt content cfault
   validateDigest H o rt b cfault
+  -- "discard any remaining bytes in block": only a warc-fields block can get here with a failing content reader
+  condFail (cfault && b.kind == .warcFields) .reader
   -- trailer
   condSite (after.take 4 != crlfcrlf) o.spec .specTrailer
   let h ← M.hdr
